@@ -146,7 +146,7 @@ PROPS = {
         "lean": ["OxiModel.Props.C09"],
         "needs_binary": True,
         "streams": [{"name": "corr-cli", "quick": 250, "thorough": 4000}],
-        "oracles": [{"name": "oracle-cli", "quick": 200, "thorough": 3000}],
+        "oracles": [{"name": "oracle-cli", "quick": 500, "thorough": 3000}],
         "claim": "Lean 4 theorems about the flag translation (parse_opts_into_struct + Options::from_preset) for all flag records: the preset table equals the manual's for every level (decide over the whole "
                  "finite table), presets touch only three fields, explicit -f / --zc / --fast / -i override any preset (the model has no notion of argument order), --nx implies keep-interlacing unless -i "
                  "is given and switches the four reductions off, the switch flags, the strip/keep policy table incl. the forbidden names; exit status = 0 if any ok else 1 if any failed else 3 (proved against "
